@@ -9,6 +9,9 @@ import GeonumModel.Lemmas.SumMagFloat
 import GeonumModel.Lemmas.FloatSumDir
 import GeonumModel.Lemmas.FloatSumCart
 import GeonumModel.Lemmas.FloatMetric
+import GeonumModel.Lemmas.FloatSumSpecial
+import GeonumModel.Props.C01
+import GeonumModel.Spec.RoundWitness
 
 set_option linter.unusedSectionVars false
 set_option linter.unusedVariables false
@@ -217,6 +220,100 @@ theorem sum_cartesian_float {a b : Geonum F} (ha : a.angle.Inv) (hb : b.angle.In
           + (40 * ((a.angle.blade + b.angle.blade : ℕ) : ℝ) + 170) * (1 / 2 ^ 53))) + 1 / 10 ^ 28 :=
   Geonum.sum_cartesian_float ha hb hma hmb hcb h1 h2
 
+/-- (B) **identical angles, rounded arithmetic**: the Cartesian components of `a + b` are the component-wise sums within
+    `(|a|+|b|)·(2⁻⁵³ + 1e-15) + 2⁻¹⁰⁷⁵` — one rounding of `|a| + |b|`, and the equality test's own tolerance on the remainders -/
+theorem sum_cartesian_same_float {a b : Geonum F} (ha : a.angle.Inv) (hb : b.angle.Inv) (hma : a.MagDom) (hmb : b.MagDom)
+    (h : sameAngle a b = true) :
+    |val (a.add b).mag * Real.cos (Angle.Tpi (a.add b).angle)
+        - (val a.mag * Real.cos (Angle.Tpi a.angle) + val b.mag * Real.cos (Angle.Tpi b.angle))|
+      ≤ (val a.mag + val b.mag) * (1 / 2 ^ 53 + val (e15 : F)) + 1 / 2 ^ 1075 ∧
+    |val (a.add b).mag * Real.sin (Angle.Tpi (a.add b).angle)
+        - (val a.mag * Real.sin (Angle.Tpi a.angle) + val b.mag * Real.sin (Angle.Tpi b.angle))|
+      ≤ (val a.mag + val b.mag) * (1 / 2 ^ 53 + val (e15 : F)) + 1 / 2 ^ 1075 :=
+  Geonum.sum_cartesian_same_float ha hb hma hmb h
+
+/-- (B) **a half turn apart, rounded arithmetic**: in all three sub-cases (cancellation below `1e-10`, first operand larger, second
+    operand larger) the Cartesian components of `a + b` are the component-wise sums within `(|a|+|b|)·(2⁻⁵³ + 1e-15) + 2·1e-10`
+    (a difference below the cancellation threshold is replaced by zero: that is the absolute term) -/
+theorem sum_cartesian_opposite_float {a b : Geonum F} (ha : a.angle.Inv) (hb : b.angle.Inv) (hma : a.MagDom) (hmb : b.MagDom)
+    (h1 : sameAngle a b = false) (h2 : oppositeAngle a b = true) :
+    |val (a.add b).mag * Real.cos (Angle.Tpi (a.add b).angle)
+        - (val a.mag * Real.cos (Angle.Tpi a.angle) + val b.mag * Real.cos (Angle.Tpi b.angle))|
+      ≤ (val a.mag + val b.mag) * (1 / 2 ^ 53 + val (e15 : F)) + 2 * val (e10 : F) ∧
+    |val (a.add b).mag * Real.sin (Angle.Tpi (a.add b).angle)
+        - (val a.mag * Real.sin (Angle.Tpi a.angle) + val b.mag * Real.sin (Angle.Tpi b.angle))|
+      ≤ (val a.mag + val b.mag) * (1 / 2 ^ 53 + val (e15 : F)) + 2 * val (e10 : F) :=
+  Geonum.sum_cartesian_opposite_float ha hb hma hmb h1 h2
+
+/-- (B) **addition is the Cartesian sum in rounded arithmetic, in EVERY branch**: for all canonical operands with magnitudes in the C01
+    domain and combined blade count `cb ≤ 2^39`, whichever of the three branches `+` takes, both Cartesian components of the result are
+    the component-wise sums within the general-branch bound plus the cancellation threshold `2·1e-10` -/
+theorem sum_cartesian_every_branch_float {a b : Geonum F} (ha : a.angle.Inv) (hb : b.angle.Inv) (hma : a.MagDom) (hmb : b.MagDom)
+    (hcb : a.angle.blade + b.angle.blade ≤ 2 ^ 39) :
+    |val (a.add b).mag * Real.cos (Angle.Tpi (a.add b).angle)
+        - (val a.mag * Real.cos (Angle.Tpi a.angle) + val b.mag * Real.cos (Angle.Tpi b.angle))|
+      ≤ (val a.mag + val b.mag) * (2 / 10 ^ 7 + 11 / 10 * (val (e10 : F)
+          + (40 * ((a.angle.blade + b.angle.blade : ℕ) : ℝ) + 170) * (1 / 2 ^ 53))) + 1 / 10 ^ 28 + 2 * val (e10 : F) ∧
+    |val (a.add b).mag * Real.sin (Angle.Tpi (a.add b).angle)
+        - (val a.mag * Real.sin (Angle.Tpi a.angle) + val b.mag * Real.sin (Angle.Tpi b.angle))|
+      ≤ (val a.mag + val b.mag) * (2 / 10 ^ 7 + 11 / 10 * (val (e10 : F)
+          + (40 * ((a.angle.blade + b.angle.blade : ℕ) : ℝ) + 170) * (1 / 2 ^ 53))) + 1 / 10 ^ 28 + 2 * val (e10 : F) :=
+  Geonum.sum_cartesian_every_branch_float ha hb hma hmb hcb
+
+/-- (B) **subtraction is the Cartesian difference in rounded arithmetic, in EVERY branch** of `a + (−b)` -/
+theorem diff_cartesian_every_branch_float {a b : Geonum F} (ha : a.angle.Inv) (hb : b.angle.Inv) (hma : a.MagDom) (hmb : b.MagDom)
+    (hcb : a.angle.blade + b.angle.blade + 2 ≤ 2 ^ 39) :
+    |val (a.sub b).mag * Real.cos (Angle.Tpi (a.sub b).angle) + val b.mag * Real.cos (Angle.Tpi b.angle) - val a.mag * Real.cos (Angle.Tpi a.angle)|
+      ≤ (val a.mag + val b.mag) * (2 / 10 ^ 7 + 11 / 10 * (val (e10 : F)
+          + (40 * ((a.angle.blade + b.angle.blade + 2 : ℕ) : ℝ) + 170) * (1 / 2 ^ 53))) + 1 / 10 ^ 28 + 2 * val (e10 : F) ∧
+    |val (a.sub b).mag * Real.sin (Angle.Tpi (a.sub b).angle) + val b.mag * Real.sin (Angle.Tpi b.angle) - val a.mag * Real.sin (Angle.Tpi a.angle)|
+      ≤ (val a.mag + val b.mag) * (2 / 10 ^ 7 + 11 / 10 * (val (e10 : F)
+          + (40 * ((a.angle.blade + b.angle.blade + 2 : ℕ) : ℝ) + 170) * (1 / 2 ^ 53))) + 1 / 10 ^ 28 + 2 * val (e10 : F) :=
+  Geonum.sub_cartesian_every_branch_float ha hb hma hmb hcb
+
+/-- the hypotheses of a running float sum: every operand canonical and in the magnitude domain, every partial sum in the magnitude
+    domain, combined blade counts at most `2^39` ("for as long as they stay inside these bounds") -/
+def RunOKF : Geonum F → List (Geonum F) → Prop
+  | _, [] => True
+  | acc, x :: xs => acc.MagDom ∧ x.angle.Inv ∧ x.MagDom ∧ acc.angle.blade + x.angle.blade ≤ 2 ^ 39 ∧ RunOKF (acc.add x) xs
+
+/-- the every-branch bound of one addition -/
+noncomputable def stepTolF (a b : Geonum F) : ℝ :=
+  (val a.mag + val b.mag) * (2 / 10 ^ 7 + 11 / 10 * (val (e10 : F)
+    + (40 * ((a.angle.blade + b.angle.blade : ℕ) : ℝ) + 170) * (1 / 2 ^ 53))) + 1 / 10 ^ 28 + 2 * val (e10 : F)
+
+/-- the accumulated tolerance of a running float sum: one `stepTolF` per step, at the magnitudes and blade counts of that step -/
+noncomputable def runTolF : Geonum F → List (Geonum F) → ℝ
+  | _, [] => 0
+  | acc, x :: xs => stepTolF acc x + runTolF (acc.add x) xs
+
+/-- (B) **running sums in rounded arithmetic**: folding `+` over any sequence, of any length, reproduces the component-wise sum of all the
+    Cartesian components to within the accumulated per-step bounds — by induction over the sequence, every partial sum canonical on the way
+    (whichever branch each step takes) -/
+theorem running_sum_float (l : List (Geonum F)) (acc : Geonum F) (hacc : acc.angle.Inv) (h : RunOKF acc l) :
+    (l.foldl Geonum.add acc).angle.Inv ∧
+    |val (l.foldl Geonum.add acc).mag * Real.cos (Angle.Tpi (l.foldl Geonum.add acc).angle)
+        - (val acc.mag * Real.cos (Angle.Tpi acc.angle) + (l.map (fun g => val g.mag * Real.cos (Angle.Tpi g.angle))).sum)|
+      ≤ runTolF acc l ∧
+    |val (l.foldl Geonum.add acc).mag * Real.sin (Angle.Tpi (l.foldl Geonum.add acc).angle)
+        - (val acc.mag * Real.sin (Angle.Tpi acc.angle) + (l.map (fun g => val g.mag * Real.sin (Angle.Tpi g.angle))).sum)|
+      ≤ runTolF acc l := by
+  induction l generalizing acc with
+  | nil => simp [runTolF, hacc]
+  | cons x xs ih =>
+    obtain ⟨hma, hx, hmx, hcb, hrest⟩ := h
+    have hinv := C01.add_angle_inv hacc hx hma hmx hcb
+    obtain ⟨s1, s2⟩ := sum_cartesian_every_branch_float hacc hx hma hmx hcb
+    obtain ⟨i1, i2, i3⟩ := ih (acc.add x) hinv hrest
+    simp only [List.foldl_cons, List.map_cons, List.sum_cons, runTolF]
+    refine ⟨i1, ?_, ?_⟩
+    · rw [abs_le] at s1 i2 ⊢
+      unfold stepTolF
+      constructor <;> linarith [s1.1, s1.2, i2.1, i2.2]
+    · rw [abs_le] at s2 i3 ⊢
+      unfold stepTolF
+      constructor <;> linarith [s2.1, s2.2, i3.1, i3.2]
+
 /-- (B) **subtraction is the Cartesian difference in rounded arithmetic** (general branch of `a + (−b)`): the Cartesian components of
     `a − b` plus those of `b` are those of `a`, within the `sum_cartesian_float` bound at blade count `ba + bb + 2` (the half turn of
     `negate` is exact) -/
@@ -251,5 +348,37 @@ example {F : Type} [FloatSpec F] : sameAngle (⟨one, ⟨zero, 0⟩⟩ : Geonum 
   constructor
   · simp [sameAngle, Angle.beq]
   · simp [oppositeAngle, Angle.beq, Angle.add, Angle.addVV, h1, h2]
+
+
+/-! ### R — on the arithmetic that really rounds (`R64`) -/
+section R
+
+/-- (R) addition is the Cartesian sum (general branch) for all pairs of binary64 numbers in the domain -/
+theorem sum_cartesian_rounded {a b : Geonum R64} (ha : a.angle.Inv) (hb : b.angle.Inv) (hma : a.MagDom) (hmb : b.MagDom)
+    (hcb : a.angle.blade + b.angle.blade ≤ 2 ^ 39) (h1 : sameAngle a b = false) (h2 : oppositeAngle a b = false) :
+    |(a.add b).mag.v * Real.cos (Angle.Tpi (a.add b).angle)
+        - (a.mag.v * Real.cos (Angle.Tpi a.angle) + b.mag.v * Real.cos (Angle.Tpi b.angle))|
+      ≤ (a.mag.v + b.mag.v) * (2 / 10 ^ 7 + 11 / 10 * ((e10 : R64).v
+          + (40 * ((a.angle.blade + b.angle.blade : ℕ) : ℝ) + 170) * (1 / 2 ^ 53))) + 1 / 10 ^ 28 ∧
+    |(a.add b).mag.v * Real.sin (Angle.Tpi (a.add b).angle)
+        - (a.mag.v * Real.sin (Angle.Tpi a.angle) + b.mag.v * Real.sin (Angle.Tpi b.angle))|
+      ≤ (a.mag.v + b.mag.v) * (2 / 10 ^ 7 + 11 / 10 * ((e10 : R64).v
+          + (40 * ((a.angle.blade + b.angle.blade : ℕ) : ℝ) + 170) * (1 / 2 ^ 53))) + 1 / 10 ^ 28 :=
+  sum_cartesian_float (F := R64) ha hb hma hmb hcb h1 h2
+
+/-- (R) addition is the Cartesian sum in EVERY branch, for all pairs of binary64 numbers in the domain -/
+theorem sum_cartesian_every_branch_rounded {a b : Geonum R64} (ha : a.angle.Inv) (hb : b.angle.Inv) (hma : a.MagDom) (hmb : b.MagDom)
+    (hcb : a.angle.blade + b.angle.blade ≤ 2 ^ 39) :
+    |(a.add b).mag.v * Real.cos (Angle.Tpi (a.add b).angle)
+        - (a.mag.v * Real.cos (Angle.Tpi a.angle) + b.mag.v * Real.cos (Angle.Tpi b.angle))|
+      ≤ (a.mag.v + b.mag.v) * (2 / 10 ^ 7 + 11 / 10 * ((e10 : R64).v
+          + (40 * ((a.angle.blade + b.angle.blade : ℕ) : ℝ) + 170) * (1 / 2 ^ 53))) + 1 / 10 ^ 28 + 2 * (e10 : R64).v ∧
+    |(a.add b).mag.v * Real.sin (Angle.Tpi (a.add b).angle)
+        - (a.mag.v * Real.sin (Angle.Tpi a.angle) + b.mag.v * Real.sin (Angle.Tpi b.angle))|
+      ≤ (a.mag.v + b.mag.v) * (2 / 10 ^ 7 + 11 / 10 * ((e10 : R64).v
+          + (40 * ((a.angle.blade + b.angle.blade : ℕ) : ℝ) + 170) * (1 / 2 ^ 53))) + 1 / 10 ^ 28 + 2 * (e10 : R64).v :=
+  sum_cartesian_every_branch_float (F := R64) ha hb hma hmb hcb
+
+end R
 
 end GeonumModel.C06
